@@ -1000,7 +1000,7 @@ theorem cv_doActionCore (w : World) (mid : Nat) (batch : Option Txn) (a : Action
       exact hloc
     cases a with
     | create o tr =>
-      have hk : ∀ (w' : World), w'.orders = w.orders ++ [{ o with id := w.orders.length, created := w.clock, statusAt := w.clock, status := none, complete := false }] →
+      have hk : ∀ (w' : World), w'.orders = w.orders ++ [{ o with id := w.orders.length, created := w.clock, statusAt := w.clock, status := none, complete := false, log := [] }] →
           w'.markets = w.markets → w'.queue = w.queue → w'.nextPackage = w.nextPackage → CV w' batch := by
         intro w' h1 h2 h3 h4
         have hn : ¬ HasOrder w w.orders.length := Fl.not_hasOrder_len w w hf.inv (Keeps.refl w)
@@ -1019,7 +1019,7 @@ theorem cv_doActionCore (w : World) (mid : Nat) (batch : Option Txn) (a : Action
             rcases List.mem_append.mp ho with h | h
             · exact absurd h how
             · simpa using h
-          have := Fl.order!_append_new w w' { o with id := w.orders.length, created := w.clock, statusAt := w.clock, status := none, complete := false } h1 hn
+          have := Fl.order!_append_new w w' { o with id := w.orders.length, created := w.clock, statusAt := w.clock, status := none, complete := false, log := [] } h1 hn
           unfold St at hfl
           rw [hid] at hfl
           simp only at this
